@@ -45,6 +45,7 @@ structure SFacets where
   maxLength : Option Nat := none
   enumeration : List String := []
   asChild : Bool := true        -- facet written as child element `<xs:f value=…/>` or as attribute
+  plus : Bool := false          -- non-negative facet values are written with an explicit plus sign (`+5`)
 deriving Repr, Inhabited
 
 structure ComplexDef where
@@ -186,11 +187,13 @@ def renderComplexBody (f : SchemaFile) (ind : String) (d : ComplexDef) : String 
   | none => renderContent f ind d
 
 def renderFacets (fc : SFacets) : String × String :=
+  let si (i : Int) : String := if fc.plus && i ≥ 0 then "+" ++ toString i else toString i
+  let sn (n : Nat) : String := if fc.plus then "+" ++ toString n else toString n
   let nums : List (String × Option String) :=
-    [("minInclusive", fc.minInclusive.map toString), ("maxInclusive", fc.maxInclusive.map toString),
-     ("minExclusive", fc.minExclusive.map toString), ("maxExclusive", fc.maxExclusive.map toString),
-     ("length", fc.length.map toString), ("minLength", fc.minLength.map toString),
-     ("maxLength", fc.maxLength.map toString)]
+    [("minInclusive", fc.minInclusive.map si), ("maxInclusive", fc.maxInclusive.map si),
+     ("minExclusive", fc.minExclusive.map si), ("maxExclusive", fc.maxExclusive.map si),
+     ("length", fc.length.map sn), ("minLength", fc.minLength.map sn),
+     ("maxLength", fc.maxLength.map sn)]
   let present := nums.filterMap (fun (n, v) => v.map (fun v => (n, v)))
   let enums := String.join (fc.enumeration.map (fun e => "      <xs:enumeration value=\"" ++ xmlEsc e ++ "\"/>\n"))
   if fc.asChild then
